@@ -1263,6 +1263,15 @@ prepos_parse (array_t * warr, int *cix_in, int *fail, svalue_t * prepos)
       parr = prepos->u.arr;
     }
 
+  if (!parr)
+    {
+      /* no list was given and the master has no parse_command_prepos_list(): nothing can match */
+      parse_ret.type = T_NUMBER;
+      parse_ret.u.number = 0;
+      *fail = 1;
+      return &parse_ret;
+    }
+
   for (pix = 0; pix < parr->size; pix++)
     {
       if (parr->item[pix].type != T_STRING)
